@@ -149,6 +149,10 @@ fn gen_impl_delegation_trait_defs(
 
     let mut trait_copy = out_trait.clone();
     trait_copy.ident = impl_trait_ident.clone();
+    // Default bodies belong to the user's trait; the methods of this trait take `__impl`
+    for trait_fn in trait_copy.fns.iter_mut() {
+        trait_fn.default_body = None;
+    }
 
     let no_mock_opts = Opts {
         mock_api: None,
